@@ -49,7 +49,9 @@ def analyse_run(cfg, driver, props=PROPS):
                n_events=len(rec['events']))
     observer = cfg['hook'] == 'observer'
     mach_issues, mach_stats, logs = [], {}, None
-    if observer and rec['error'] is None:
+    # an objective that returns a view of its argument makes `agent.fit` follow the agent between evaluations: the
+    # machine's agents carry values, so such runs are judged by the direct oracles only
+    if observer and rec['error'] is None and cfg.get('objective') != 'view0':
         try:
             mach_issues, mach_stats, logs = analyse.machine_check(rec, driver)
         except Exception as ex:
